@@ -29,12 +29,12 @@ REPO = os.environ.get("VERIF_REPO", "/repo")
 
 CHECKS = {
     "model/fragment.py": ["C02", "C09", "C10", "C20", "C05"],
-    "model/node.py": ["C02", "C09", "C07", "C05", "C13"],
-    "model/replace.py": ["C02", "C01", "C04"],
+    "model/node.py": ["C02", "C09", "C07", "C05", "C13", "C20"],
+    "model/replace.py": ["C02", "C01", "C04", "C18", "C19"],
     "model/resolvedpos.py": ["C09"],
     "model/mark.py": ["C14", "C13"],
     "model/schema.py": ["C07", "C14", "C15", "C06", "C05", "C13"],
-    "model/content.py": ["C06", "C15", "C07"],
+    "model/content.py": ["C06", "C15", "C07", "C02", "C12"],
     "model/diff.py": ["C20"],
     "model/comparedeep.py": ["C20", "C14", "C05"],
     "model/from_dom.py": ["C19"],
